@@ -47,7 +47,15 @@ def build(scratch):
     ex.items.pop()
     vmm = [ex.fn(VM, "safepoint_or_interrupt"), ex.fn(VM, "park_thread_while_paused")]
     thr = [ex.fn(VM, "enter_safepoint"), ex.fn(VM, "enter_safepoint_once")]
-    text = ("\n\n".join(parts) + "\n\nimpl<'a> VmCore<'a> {\n    " + "\n\n    ".join(vmm) + "\n}\n\nimpl SteelThread {\n    " + "\n\n    ".join(thr) + "\n}\n")
+    IH = "crates/steel-core/src/steel_vm/interrupt.rs"
+    ih_struct = ex.item(IH, "struct", "InterruptHandler")
+    for f in ["controller: ThreadStateController", "running: Arc<AtomicBool>", "handle: std::thread::JoinHandle<()>", "done: crossbeam_channel::Sender<()>"]:
+        if f not in ih_struct:
+            raise AnchorLost(f"InterruptHandler field changed: {f}")
+    ex.items.pop()
+    s0, ob0, end0 = ex.impl_range(IH, r"impl InterruptHandler")
+    ih = "impl InterruptHandler {\n    " + ex.fn(IH, "run_with_timeout", within=(ob0, end0)) + "\n}\n"
+    text = ("\n\n".join(parts) + "\n\nimpl<'a> VmCore<'a> {\n    " + "\n\n    ".join(vmm) + "\n}\n\nimpl SteelThread {\n    " + "\n\n    ".join(thr) + "\n}\n\n" + ih)
     crate = os.path.join(scratch, "intrx")
     os.makedirs(os.path.join(crate, "src"))
     shutil.copy(os.path.join(REPO, "Cargo.lock"), os.path.join(crate, "Cargo.lock"))
@@ -88,6 +96,8 @@ OBS = {
                                             contract="for every (paused, state, spawned_via_make_thread): paused && Interrupted => Err(Generic) WITHOUT parking and without publishing the thread pointer; !paused => Ok, no park; Suspended => parks until resumed, Ok; PausedAtSafepoint => the pointer is published while parked and retracted before returning"),
     "interrupt_then_poll_lemma": dict(kind="proof", functions=["ThreadStateController::interrupt", "ThreadStateController::resume", "VmCore::safepoint_or_interrupt"],
                                       contract="after interrupt() the next poll is an error from every prior state (the running evaluation stops); after resume() polls succeed again (the engine is usable)"),
+    "run_with_timeout_contract": dict(kind="proof", functions=["InterruptHandler::run_with_timeout", "ThreadStateController::resume"],
+                                      contract="whether or not the watchdog interrupted the evaluation: the closure runs exactly once, the watchdog is told the run is over (one message, running cleared) and the controller is resumed AFTER the run, so the engine is usable again"),
     "enter_safepoint_contract": dict(kind="bounded", bound="the host resumes after at most 2 parks", functions=["SteelThread::enter_safepoint", "SteelThread::enter_safepoint_once"],
                                      contract="a thread blocked in a safepoint leaves its wait loop when Interrupted (without waiting to be resumed) and always retracts the published pointer; the closure runs exactly once"),
 }
